@@ -8,6 +8,8 @@ extern int g_mon_active;
 void sm2_z256_point_mul_generator(SM2_Z256_POINT *R, const sm2_z256_t k) { memset(R, 0, sizeof(*R)); for (int i = 0; i < 4; i++) { R->X[i] = k[i]; R->Y[i] = ~k[i]; } R->Z[0] = 1; }
 int sm2_z256_point_to_uncompressed_octets(const SM2_Z256_POINT *P, uint8_t out[65])
 { out[0] = 4; sm2_z256_to_bytes(P->X, out + 1); sm2_z256_to_bytes(P->Y, out + 33); return 1; }
+int sm2_z256_point_to_bytes(const SM2_Z256_POINT *P, uint8_t out[64]) { sm2_z256_to_bytes(P->X, out); sm2_z256_to_bytes(P->Y, out + 32); return 1; }
+int sm2_z256_point_get_xy(const SM2_Z256_POINT *P, uint64_t x[4], uint64_t y[4]) { memcpy(x, P->X, 32); if (y) memcpy(y, P->Y, 32); return 1; }
 static int g_octets_verdict;
 int sm2_z256_point_from_octets(SM2_Z256_POINT *P, const uint8_t *in, size_t inlen)
 { if (inlen != 65 || in[0] != 4 || g_octets_verdict != 1) return -1; memset(P, 0, sizeof(*P)); sm2_z256_from_bytes(P->X, in + 1); sm2_z256_from_bytes(P->Y, in + 33); P->Z[0] = 1; return 1; }
